@@ -372,6 +372,7 @@ Proof.
   - unfold add_link. destruct (_ && _); [exact H|]. destruct (cap_attrs _ _). destruct (eq_add _ _ _ _). cbn. exact H.
   - unfold set_status. destruct (_ <? _); cbn; exact H.
   - reflexivity.
+  - reflexivity.
 Qed.
 
 Lemma run_before_end lim ops : forall s, m_ended s = false ->
@@ -447,7 +448,7 @@ Section Span.
     events_of lim (l ++ [o]) = events_of lim l ++
       match o with
       | OAddEvent n t a => [mk_event lim n t a]
-      | ORecordError typ msg t a => [mk_event lim (str "exception") t (a ++ exc_attrs typ msg)]
+      | ORecordError typ msg t a st => [mk_event lim (str "exception") t (a ++ exc_all typ msg st)]
       | _ => []
       end.
   Proof. unfold events_of. rewrite flat_map_app. cbn. now rewrite app_nil_r. Qed.
@@ -478,7 +479,7 @@ Section Span.
   Lemma inv_step l s o : is_end o = false -> Inv l s -> Inv (l ++ [o]) (step lim s o).
   Proof.
     intros Hne I. pose proof I as (I1 & I2 & I3 & I4 & I5 & I6 & I7). unfold step. rewrite I1.
-    destruct o as [kvs|name ts kvs|typ msg ts kvs|ctx hts kvs|code desc|name|ts]; [| | | | | |discriminate].
+    destruct o as [kvs|name ts kvs|typ msg ts kvs stk|ctx hts kvs|code desc|name| |ts]; [| | | | | | |discriminate].
     - (* SetAttributes *)
       pose proof (set_attributes_sim lim kvs _ _ _ I4) as A.
       destruct (set_attributes lim kvs (m_attrs s) (m_dropped s)) as [l' d']. cbn [fst snd] in A.
@@ -526,6 +527,15 @@ Section Span.
       rewrite name_of_snoc, status_of_snoc, offers_of_snoc, events_of_snoc, links_of_snoc, !app_nil_r.
       cbn [m_ended m_name m_status m_attrs m_dropped m_events m_evdropped m_links m_lkdropped m_meta].
       finish.
+    - (* a read of the live span: the raw slice is de-duplicated in place, nothing observable changes *)
+      unfold Inv.
+      rewrite name_of_snoc, status_of_snoc, offers_of_snoc, events_of_snoc, links_of_snoc, !app_nil_r.
+      cbn [m_ended m_name m_status m_attrs m_dropped m_events m_evdropped m_links m_lkdropped m_meta].
+      assert (A : AInv lim (dedupe (m_attrs s)) (m_dropped s) (offers_of l)).
+      { destruct I4 as [A1 A2]. split.
+        - rewrite dedupe_nodup_id by apply dedupe_nodup. exact A1.
+        - intro H. specialize (A2 H). pose proof (dedupe_length (m_attrs s)). lia. }
+      repeat split; try assumption; now destruct A.
   Qed.
 
   Lemma inv_run l : Forall no_end l -> Inv l (fold_left (step lim) l (init so name0)).
@@ -942,7 +952,7 @@ Definition lim_ev0 : limits :=
 Definition lim_lk0 : limits :=
   {| lim_len := -1; lim_attrs := -1; lim_events := -1; lim_links := 0; lim_evattrs := -1; lim_lkattrs := -1 |}.
 
-Definition no_start : start_opts := {| so_attrs := []; so_links := []; so_start := 0; so_kind := 0 |}.
+Definition no_start : start_opts := {| so_sattrs := []; so_attrs := []; so_links := []; so_start := 0; so_kind := 0 |}.
 
 Lemma snapshot_before_fix_refuted :
   (exists lim so name0 ops, x_evdropped (snapshot_before_fix (run_model lim so name0 ops)) <> x_evdropped (run_spec lim so name0 ops)) /\
